@@ -53,6 +53,12 @@ META = {
 BAD = 'zz9'
 
 
+class LabelStr(str):
+    """a str subclass whose str() is not its text (like class Field(str, Enum): str(Field.NAME) == 'Field.NAME')"""
+    def __str__(self):
+        return 'LabelStr.%s' % str.__str__(self).upper()
+
+
 def ref_step(cur, style, arg):
     if style == 'P':
         if isinstance(cur, dict):
@@ -133,7 +139,10 @@ def make_spec(rng, steps, spelling):
             return arg
         return getattr(T, arg) if style == '.' else T[arg]
     if spelling == 'string':
-        return '.'.join(arg for _, arg in steps)
+        text = '.'.join(arg for _, arg in steps)
+        # (a fifth of the dotted strings are instances of a str SUBCLASS whose str() says something else, as the members of a
+        # str-mixin Enum do: the spec is the string's characters, not what str() makes of it)
+        return LabelStr(text) if rng.random() < 0.2 else text
     if spelling == 'T':
         t = T
         for style, arg in steps:
